@@ -1907,6 +1907,13 @@ PROBE_WHAT = {
 	'comp:enumerate-index': '`[.. for i, x in enumerate(xs)]` (list / dict comprehension over enumerate): comp/comp_for_enumerate.j2 emits '
 		'`for (auto [i, __iter, __end, x] = std::tuple{0, xs.begin(), xs.end(), *(xs.begin())}; __iter < __end; __iter++, x = *__iter)` — the index `i` '
 		'is never incremented (it is 0 in every iteration), and the last step dereferences end() (an empty list dereferences begin())',
+	'enumerate:continue-skips-index': '`for i, x in enumerate(xs): if ..: continue; ..`: flow/for/enumerate.j2 emits `int i = 0; for (auto& x : xs) { ..; i++; }` — the '
+		'increment is the LAST statement of the body, a `continue` skips it and the index lags behind (python [65], c++ [45])',
+	'enumerate:index-redeclared': 'two `for i, x in enumerate(..)` loops with the same index name in one function: flow/for/enumerate.j2 declares `int i = 0;` in the '
+		'enclosing block for each of them: g++ rejects the redeclaration (valid Python; VarsCollector is not consulted for the index)',
+	'reject:dict-comp-angle-key': 'a dict comprehension whose KEY expression contains `<` / `<<` (`{x << 1: x for x in xs}`, `{x < n: x for ..}`) is rejected: '
+		'Errors.Fatal <- ValueError in on_dict_comp — the rendered projection `{key, value}` is split with BlockParser.break_separator, which reads `<` as an '
+		'opening bracket (the defect repaired for range() arguments by ed1a7d7, still present here)',
 	'str:rfind-any-char': '`s.rfind(t)` is mapped to `s.find_last_of(t)` (data/i18n.yml `str.rfind: find_last_of`): std::string::find_last_of finds the last '
 		'occurrence of ANY CHARACTER of t, not of the substring t (`\'abxa\'.rfind(\'ab\')`: python 0, c++ 3); the substring search is std::string::rfind',
 	'reject:block-scoped-name': 'a name first assigned inside a nested block (both if/else branches, a while/for body, the for variable) and read after the block '
@@ -1994,6 +2001,16 @@ def probe_program(rng: random.Random, key: str | None = None) -> tuple[str, dict
 			f'\txs = [{e1}, {e2}, {a}]\n\tt = 0\n\tfor y in [i + {k} for i, x in enumerate(xs)]:\n\t\tt = t * 10 + y\n\treturn t\n',
 			f'\txs = [{e1}, {e2}, {a}]\n\td = {{i: x for i, x in enumerate(xs)}}\n\treturn len(d) * 1000 + d[0]\n',
 		])
+	elif key == 'enumerate:continue-skips-index':
+		skip = rng.choice([f'x == {a}', f'i == {rng.randint(0, 1)}', f'x > {b}', f'(x + i) % 2 == 0'])
+		body = (f'\txs = [{e1}, {a}, {e2}, {b}, {rng.randint(0, 9)}]\n\tt = 0\n\tfor i, x in enumerate(xs):\n\t\tif {skip}:\n\t\t\tcontinue\n'
+			f'\t\tt += (i + 1) * 1000 + (x & 15)\n\treturn t\n')
+	elif key == 'enumerate:index-redeclared':
+		body = (f'\txs = [{e1}, {a}, {b}]\n\tt = 0\n\tfor i, x in enumerate(xs):\n\t\tt += i * {rng.randint(1, 5)} + (x & 7)\n'
+			f'\tfor i, y in enumerate(xs):\n\t\tt += i + (y & {rng.randint(1, 7)})\n\treturn t\n')
+	elif key == 'reject:dict-comp-angle-key':
+		kexpr = rng.choice([f'x << {rng.randint(1, 3)}', f'(x & 7) << 1', f'x < {a}', f'{rng.randint(1, 4)} << (x & 1)'])
+		body = f'\txs = [{e1}, {e2}, {a}]\n\tw = {{{kexpr}: x for x in xs}}\n\tt = 0\n\tfor k, x in w.items():\n\t\tt += x\n\treturn t + len(w) * 1000\n'
 	elif key == 'str:rfind-any-char':
 		c1, c2 = rng.sample('abxy', 2)
 		body = f"\tu = '{c1}{c2}'\n\tk = s.rfind(u)\n\treturn k * 10 + {rng.randint(0, 9)}\n"
@@ -2129,6 +2146,9 @@ IDIOM_WHAT = {
 	'idiom:callable-capture': 'a lambda / closure that CALLS a callable held in a local variable or a `Callable[...]` parameter must capture it',
 	'idiom:list-fill-field': 'annotated declarations whose value is a list fill (`xs: list[int] = [v] * n`, constructor field `self.xs: list[int] = [v] * n`) '
 		'are n copies of v, not the two-element initializer {n, v}',
+	'idiom:container-methods': 'list copy / pop / clear / list(..) / del, dict copy / pop / clear / del / list(d.keys()) / list(d.values()), list and dict '
+		'comprehensions over dict views and with a condition, tuple indexing, nested lists, a call of a None function: independent copies, '
+		'the popped / remaining elements and the aggregated values are Python\'s',
 	'idiom:inferred-operator-type': 'the type inferred for an operator expression with operands of different types (int op float, float op int, flat chains of both) '
 		'is the type of Python\'s value whichever operand stands on the left: an un-annotated local, a list literal element, a comprehension projection '
 		'and a lambda result declared from it keep the fractional part',
@@ -2155,6 +2175,8 @@ def idiom_program(rng: random.Random, key: str | None = None) -> tuple[str, dict
 		return key, {'source': '\n\n'.join(parts), 'entries': entries, 'classes': {}}
 	if key == 'idiom:inferred-operator-type':
 		return key, _mixed_type_program(rng)
+	if key == 'idiom:container-methods':
+		return key, _container_methods_program(rng)
 	elem = rng.choice([str(k3), 'v', f'v + {k1}', f'v * {k2}'])
 	cnt = rng.choice(['n', f'n + {rng.randint(1, 2)}', f'(n & 3)', str(rng.randint(0, 4))])
 	read = rng.choice(['t += x', f't = t * {k2} + x', 't += x + 1'])
@@ -2166,6 +2188,38 @@ def idiom_program(rng: random.Random, key: str | None = None) -> tuple[str, dict
 	args = [[rng.randint(0, 6), rng.randint(0, 9)] for _ in range(5)]
 	entries = [{'fn': f, 'params': ['int', 'int'], 'ret': 'int', 'args': args} for f in ('fill_anno', 'fill_inferred', 'fill_field')]
 	return key, {'source': '\n\n'.join(parts), 'entries': entries, 'classes': {'Grid': ['cells', 'n']}}
+
+
+def _container_methods_program(rng: random.Random) -> dict[str, Any]:
+	"""container methods and statement forms the expression / statement IR of `Gen` does not carry, operands randomised; dict contents are
+	only aggregated by commutative sums or read by key (no reliance on dict order), indices stay inside the lists"""
+	c = [rng.randint(1, 9) for _ in range(6)]
+	k1, k2, k3 = sorted(rng.sample(range(1, 12), 3))
+	parts: list[str] = []
+	fns: list[str] = []
+
+	def fn(name: str, body: str) -> None:
+		parts.append(f'def {name}(n: int, v: int) -> list[int]:\n{body}')
+		fns.append(name)
+
+	xs = f'[v, n, v + n, {c[0]}]'
+	d = f'{{{k1}: v, {k2}: n, {k3}: v + n}}'
+	pop_at = rng.randint(0, 2)
+	fn('l_copy', f'\txs = {xs}\n\tys = xs.copy()\n\tys.append(n + {c[1]})\n\tys[{rng.randint(0, 3)}] = {c[2]}\n\tzs = list(xs)\n\tzs[0] = zs[0] + {c[3]}\n\treturn [xs[0], xs[{rng.randint(1, 3)}], len(xs), len(ys), ys[4], zs[0]]\n')
+	fn('l_pop', f'\txs = {xs}\n\ta = xs.pop()\n\tb = xs.pop({pop_at})\n\treturn [a, b, len(xs), xs[0], xs[1]]\n')
+	fn('l_clear', f'\txs = {xs}\n\txs.clear()\n\txs.append(n - {c[1]})\n\txs.insert(0, v)\n\treturn xs\n')
+	fn('l_del', f'\txs = {xs}\n\tdel xs[{rng.randint(0, 3)}]\n\treturn xs\n')
+	fn('l_comp', f'\txs = {xs}\n\tys = [x * {c[1]} + 1 for x in xs if x {rng.choice([">", "<", ">=", "!="])} n]\n\tm = [[n, v + {c[2]}], [v, n + 1, {c[3]}]]\n\tys.append(len(m) * 100 + len(m[1]) * 10)\n\tys.append(m[0][1])\n\tys.append(m[1][{rng.randint(0, 2)}])\n\treturn ys\n')
+	fn('d_copy', f'\td = {d}\n\te = d.copy()\n\te[{k3 + 2}] = n\n\te[{k1}] = {c[4]}\n\treturn [d[{k1}], len(d), len(e), e[{k3 + 2}], e[{k1}]]\n')
+	fn('d_pop', f'\td = {d}\n\tp = d.pop({rng.choice([k1, k2, k3])})\n\tq = 1 if {k2} in d else 0\n\tr = d.get({k1}, -{c[5]})\n\treturn [p, q, r, len(d)]\n')
+	fn('d_clear_del', f'\td = {d}\n\tdel d[{rng.choice([k1, k2, k3])}]\n\ta = len(d)\n\td.clear()\n\td[{c[0]}] = n\n\treturn [a, len(d), d[{c[0]}]]\n')
+	fn('d_views', f'\td = {d}\n\tks = list(d.keys())\n\tvs = list(d.values())\n\tt = 0\n\tfor k in ks:\n\t\tt += k\n\tu = 0\n\tfor x in vs:\n\t\tu += x * {c[1]}\n\treturn [len(ks), len(vs), t, u]\n')
+	fn('d_comp', f'\td = {d}\n\tw = {{k: x + k * {c[2]} for k, x in d.items()}}\n\ta = [k * {c[3]} for k in d.keys()]\n\tb = [x - {c[4]} for x in d.values()]\n\tt = 0\n\tfor y in a:\n\t\tt += y\n\tfor y in b:\n\t\tt += y * 3\n\treturn [w[{k1}], w[{k2}], w[{k3}], len(w), t]\n')
+	parts.append(f'def nothing(n: int) -> None:\n\tpass\n')
+	fn('misc', f'\tt = (n, v + {c[0]}, n * {c[1]})\n\tnothing(n)\n\treturn [t[0], t[1], t[2]]\n')
+	args = [[rng.randint(0, 9), rng.randint(0, 9)] for _ in range(4)] + [[rng.randint(-20, 40), rng.randint(-20, 40)]]
+	entries = [{'fn': f, 'params': ['int', 'int'], 'ret': 'list[int]', 'args': args} for f in fns]
+	return {'source': '\n\n'.join(parts), 'entries': entries, 'classes': {}}
 
 
 def _mixed_type_program(rng: random.Random) -> dict[str, Any]:
